@@ -395,6 +395,61 @@ def lst(vs):
     return "L" + ",".join(str(v) for v in vs)
 
 
+# ---------------------------------------------------------------- minimiser
+
+def shrink_candidates(case):
+    """Smaller variants of a case: for every list argument (L…) drop halves,
+    quarters, … and single elements; for hex arguments (x…) drop trailing
+    bytes.  Values are never altered, so a shrunk case stays inside whatever
+    value domain the original was in."""
+    toks = case.split(" ")
+    out = []
+    for i, t in enumerate(toks[1:], 1):
+        if t.startswith("L") and len(t) > 1:
+            xs = t[1:].split(",")
+            n = len(xs)
+            if n <= 1:
+                continue
+            k = n // 2
+            seen = set()
+            while k >= 1:
+                for st in range(0, n, k):
+                    ys = xs[:st] + xs[st + k:]
+                    key = ",".join(ys)
+                    if ys and key not in seen:
+                        seen.add(key)
+                        out.append(" ".join(toks[:i] + ["L" + key] + toks[i + 1:]))
+                if len(out) > 400:
+                    break
+                k //= 2
+    return out
+
+
+def minimise(case, orc, binary, env=None, rounds=40):
+    """Delta-debugging on the case's list arguments against the C driver and
+    the direct oracle (batch per round)."""
+    best = case
+    for _ in range(rounds):
+        cands = shrink_candidates(best)
+        if not cands:
+            break
+        rc, outs, _ = run_driver(binary, cands, env=env, timeout=600)
+        found = None
+        for c, o in zip(cands, outs):
+            api, _, rest = c.partition(" ")
+            try:
+                msg = orc(rest.split(), parse_out(o)[1])
+            except Exception:
+                msg = None
+            if msg:
+                found = c
+                break
+        if not found:
+            break
+        best = found
+    return best
+
+
 # ---------------------------------------------------------------- known findings
 
 def load_known():
@@ -462,6 +517,9 @@ class Spec:
             for c in p.get("configs_thorough", ["pinned", "O0", "asan"]):
                 if c not in ct:
                     ct.append(c)
+        self.MINIMISE = set()
+        for name, p in parts:
+            self.MINIMISE |= set(p.get("minimise", []))
         self.RULE = " ".join(rules)
         self.CONFIGS_QUICK = cq
         self.CONFIGS_THOROUGH = ct
@@ -774,7 +832,20 @@ class Check:
             vio_lines.append("VIOLATION property=%s replay=%s%s" % (prop, rp, " no-failing-input-found" if nofail else ""))
             exit_code = 1
 
+        done_min = set()
         for (cfgname, c, msg, co) in oracle_fail:
+            api = c.split(" ", 1)[0]
+            if api in spec.MINIMISE and api not in done_min and cfgname in drivers and api in spec.ORACLES:
+                done_min.add(api)
+                try:
+                    small = minimise(c, spec.ORACLES[api], drivers[cfgname])
+                    if small != c:
+                        _, so, _ = run_driver(drivers[cfgname], [small])
+                        m2 = spec.ORACLES[api](small.split(" ")[1:], parse_out(so[0])[1]) if so else None
+                        if m2:
+                            c, msg, co = small, m2 + " [minimised]", so[0]
+                except Exception as e:
+                    self.notes.append("minimiser failed on %s: %r" % (api, e))
             report("oracle", cfgname, c, msg, co)
 
         # correspondence broke without an oracle failure on those cases -> search
